@@ -129,12 +129,16 @@ def zerosArr [Zero K] (s0 s1 : Int) : Arr K := { s0 := s0, s1 := s1, get := fun 
 def wfField [Add K] [Mul K] [Zero K] (one : K) (s0 s1 : Int) (data : List (Fld K)) : Arr K :=
   data.foldl (fun out f => insertArr f out one) (zerosArr s0 s1)
 
+/-- one pass of the loop of `Wavefront.insert` over what `reduce` returned -/
+def insertStep [Add K] [Mul K] (nsq : K → K) (w : K) (acc : Option (Arr K)) (g : Option (Fld K)) : Option (Arr K) :=
+  match acc, g with
+  | some o, some f => some (insertArr f o w nsq)
+  | _, _ => none
+
 /-- `Wavefront.insert(out, weight)`: `reduce` the fields, then insert `|field|^2 * weight` of every reduced field;
 `nsq z` stands for `|z^2|`. `none` when `reduce` hits the origin-pixel corner where NumPy raises. -/
 def wfInsert [Add K] [Mul K] [Zero K] (nsq : K → K) (data : List (Fld K)) (out : Arr K) (w : K) : Option (Arr K) :=
-  (reduce data).foldl (fun acc g => match acc, g with
-    | some o, some f => some (insertArr f o w nsq)
-    | _, _ => none) (some out)
+  (reduce data).foldl (insertStep nsq w) (some out)
 
 /-- `Wavefront.intensity` -/
 def wfIntensity [Add K] [Mul K] [Zero K] (one : K) (nsq : K → K) (s0 s1 : Int) (data : List (Fld K)) : Option (Arr K) :=
